@@ -19,6 +19,9 @@ A unit template (contracts/<unit>.vrs) is Verus source with directive lines:
     //@ strip-inner-attrs   drop `#[..]` attributes inside the item (rule R3)
     //@ keep-attrs      keep the item's outer attributes (default: dropped)
     //@ novacuity       do not add the must-fail assertion for this item (e.g. external_body)
+    //@ stub            assumed contract: `external_body` and the body is dropped (`unimplemented!()`)
+    //@ drop-tail-continue N   rule R16: remove `continue;` statements of loop N that are in tail position (checked)
+    //@ body-end        ghost payload before the final line of the item (end of the function body)
     //@end
 
     selector := step (' :: ' step)*      step := 'fn NAME' | 'struct NAME' | 'enum NAME' | 'const NAME'
@@ -268,6 +271,12 @@ def _extract_item(unit, out, repo, rel, sel, subs, trel, vacuity, assume_mode=Fa
         if not any("external_body" in (x[1] + " ".join(x[2])) for x in subs if x[0] == "attr"):
             edits.append((start, 0, "#[verifier::external_body]\n", 0))
         repls.append((item.body_open, end, "{ unimplemented!() }", 0, "ASSUME", "<body>"))
+    if "stub" in opts and item.kind == "fn" and item.body_open is not None and not assume_mode:
+        # `//@ stub`: assumed contract, body dropped (for callees whose bodies do not type-check in single-file mode)
+        edits.append((start, 0, "#[verifier::external_body]\n", 0))
+        repls.append((item.body_open, end, "{ unimplemented!() }", 0, "ASSUME", "<body>"))
+        external = True
+        subs = [x for x in subs if x[0] in ("spec", "ret", "attr", "keep-attrs", "stub") or (x[0] in ("rewrite", "rewrite-re") and x[1].split()[0] in ("R13", "R14"))]
     for kw, args, pl, tl in subs:
         if kw in ("keep-attrs", "novacuity", "strip-inner-attrs"):
             continue
@@ -360,6 +369,45 @@ def _extract_item(unit, out, repo, rel, sel, subs, trel, vacuity, assume_mode=Fa
             else:
                 le = src.find("\n", ct[bc].end)
                 edits.append((le + 1, 0, payload_text(pl) + "\n", tl))
+        elif kw == "drop-tail-continue":
+            # rule R16: a `continue;` in tail position of loop N (nothing but closing braces and skipped else-branches
+            # follows it up to the end of the loop body) is a no-op; Verus rejects `continue` in for loops.
+            if loops is None:
+                loops = rustlex.loops_in(sf, item)
+            k = int(args.split()[0])
+            if k < 1 or k > len(loops):
+                raise AnchorLost("loop %d of %s not found" % (k, sel))
+            kw_off, body_off = loops[k - 1]
+            ct = sf.ct
+            bo = [j for j in range(item.tok_lo, item.tok_hi) if ct[j].start == body_off][0]
+            bc = rustlex.match_close(ct, bo)
+            conts = [j for j in range(bo + 1, bc) if ct[j].kind == "ident" and ct[j].text == "continue"]
+            if not conts:
+                raise AnchorLost("R16: loop %d of %s has no `continue`" % (k, sel))
+            for j in conts:
+                if ct[j + 1].text != ";":
+                    raise AnchorLost("R16: labelled continue in %s" % sel)
+                q = j + 2
+                while q < bc:
+                    if ct[q].text == "}":
+                        q += 1
+                        while q < bc and ct[q].kind == "ident" and ct[q].text == "else":
+                            q += 1
+                            while ct[q].text != "{":   # `else if cond {`
+                                if ct[q].text in ("(", "["):
+                                    q = rustlex.match_close(ct, q)
+                                q += 1
+                            q = rustlex.match_close(ct, q) + 1
+                    else:
+                        raise AnchorLost("R16 not applicable: `continue` at %s:%d of %s is not in tail position" % (
+                            rel, sf.line_of(ct[j].start), sel))
+                repls.append((ct[j].start, ct[j + 1].end, "", tl, "R16", "continue;"))
+        elif kw == "stub":
+            pass
+        elif kw == "body-end":
+            _lint_ghost(unit, pl, trel, tl)
+            ls = src.rfind("\n", 0, item.end - 1) + 1
+            edits.append((ls, 0, payload_text(pl) + "\n", tl))
         elif kw == "itername":
             # rule R12: `for x in E` -> `for x in <name>: E` (names Verus' ghost iterator; no executable effect)
             if loops is None:
